@@ -8,6 +8,7 @@ structure MSched where
   cs : CS
   seenWrites : Nat := 0
   decBuf : Bytes := []
+  coalesce : Bool := false
   deriving Inhabited
 
 def pcName : PC → String
@@ -31,7 +32,7 @@ def statusStr (cs : CS) : String :=
   joinSep " " parts
 
 def MSched.obs (m : MSched) : MSched × String :=
-  let n : MNode := { s := m.cs.s, seenWrites := m.seenWrites, decBuf := m.decBuf }
+  let n : MNode := { s := m.cs.s, seenWrites := m.seenWrites, decBuf := m.decBuf, coalesce := m.coalesce }
   let (n', d) := n.delta
   ({ m with seenWrites := n'.seenWrites, decBuf := n'.decBuf }, statusStr m.cs ++ d)
 
@@ -129,6 +130,9 @@ def schedOp (st : Option MSched) (toks : List String) : Option MSched × String 
           let (m, o) := ({ m with cs := settle 64 cs } : MSched).obs
           (some m, o)
         | none => (st, "bad-op")
+      | ["shortw", k] =>
+        -- the model's transport takes whole buffers; only the per-call write sizes are no longer comparable
+        (some { m with coalesce := k != "0" }, "ok")
       | ["budget", k] =>
         if k == "none" then (some { m with cs := { m.cs with s := { m.cs.s with wrBudget := none } } }, "ok")
         else match k.toNat? with
